@@ -312,6 +312,8 @@ class C13(Prop):
         core.tie_run(stats, "net", ["gen", seed + 60, 300 if tier == "thorough" else 40], self.nontrivial, cmp)
         # UDP over IPv6: every size between the declared maximum and the kernel's IPv6 limit, four send paths
         core.tie_run(stats, "udp", ["gen-sweep", 65490, 65530, 1, 16, "v6"], lambda c, t: "over" in t or "max" in t, cmp)
+        # the Udp corpus: exact maximum on every path, and the send after an ICMP bounce (ResourceNotFound, nothing sent)
+        core.tie_run(stats, "udp", ["gen", seed + 61, 12], lambda c, t: "over" in t or "max" in t or "absent-peer" in t, cmp)
 
     def search(self, tier, seed):
         st = core.Stats()
@@ -345,10 +347,11 @@ class C12(Prop):
             "65480..65530. non-trivial = a receiver with at least two distinct "
             "senders, or a zero-length / maximum-size / reply case (tags multi-sender, zero, max, reply); distinct = by case line")
     trusted_base = [KERNEL, TIE, "model of adapters/udp.rs + the UDP paths of driver.rs + Endpoint::from_listener written by hand (MioModel/Udp.lean)",
-                    "the kernel's datagram service on loopback is the model's environment: a datagram of at most 65507 bytes sent to a "
-                    "bound socket is queued whole with its source address unless the socket is connected elsewhere; recv cuts to the "
-                    "buffer; nothing is dropped while the receiver is polled between bursts (paced)"]
-    assumptions = ["loss under receive-buffer overflow, reordering between different senders, IPv6, multicast and the "
+                    "the kernel's datagram service on loopback is the model's environment: a datagram of at most 65507 bytes (IPv4) / "
+                    "65527 bytes (IPv6) sent to a bound socket is queued whole with its source address unless the socket is "
+                    "connected elsewhere; recv cuts to the reader's buffer; nothing is dropped while the receiver is polled between "
+                    "bursts (paced)"]
+    assumptions = ["loss under receive-buffer overflow, reordering between different senders, multicast and the "
                    "receive_broadcasts filter (accept_filtered) are outside the model; the WouldBlock retry loop of send_packet is "
                    "not modelled (termination is the OS's)",
                    "order is compared per (receiver, source) pair"]
@@ -480,6 +483,7 @@ class C06(Prop):
         th = tier == "thorough"
         core.tie_run(stats, "vq", ["gen-stress", seed, 24 if th else 8, 20000 if th else 3000], self.nontrivial, cmp)
         core.tie_run(stats, "vq", ["gen-clones", 600000 if th else 150000], self.nontrivial, cmp)
+        core.tie_run(stats, "vq", ["gen-collide", 8, 60000 if th else 15000], self.nontrivial, cmp)
         core.tie_run(stats, "vq", ["gen-conc", seed, 1500 if th else 200], self.nontrivial, cmp)
 
     def search(self, tier, seed):
@@ -513,6 +517,7 @@ class C08(Prop):
         core.tie_run(stats, "vq", ["gen-conc", seed + 3, 4000 if th else 500], self.nontrivial, cmp)
         core.tie_run(stats, "vq", ["gen-stress", seed + 3, 12 if th else 4, 10000 if th else 2000], self.nontrivial, cmp)
         core.tie_run(stats, "vq", ["gen-clones", 300000 if th else 100000], self.nontrivial, cmp)
+        core.tie_run(stats, "vq", ["gen-collide", 8, 10000], self.nontrivial, cmp)
         core.tie_run(stats, "vq", ["gen-backlog"], self.nontrivial, cmp)
 
     def search(self, tier, seed):
